@@ -694,11 +694,20 @@ class Pfasst(StageContract):
         out.append(dict(n=3, d=1, stage='IT_FINE', odd='IT_CHECK'))
         out.append(dict(n=3, d=0, stage='IT_CHECK', odd='IT_FINE'))
         out.append(dict(n=2, d=0, stage='IT_UP', odd='IT_DOWN'))
+        # the controller owns more steps than the block has (short first block / last block): they were never touched (done is None)
+        out.append(dict(n=2, d=0, stage='IT_CHECK', odd=None, inactive=1))
+        out.append(dict(n=2, d=1, stage='IT_FINE', odd=None, inactive=2))
+        out.append(dict(n=1, d=0, stage='IT_CHECK', odd=None, inactive=1))
         return out
 
     def build(self, inst, mk):
-        st = setup_block(mk, dict(n=inst['n'], d=inst['d']), 'IT_CHECK')
+        extra = inst.get('inactive', 0)
+        st = setup_block(mk, dict(n=inst['n'] + extra, d=inst['d']), 'IT_CHECK')
         st.inst = inst
+        st.active = st.MS[: inst['n']]
+        st.running = st.active[inst['d']:]
+        for S in st.MS[inst['n']:]:
+            S.status.done, S.status.stage, S.status.prev_done, S.status.iter = None, None, None, None
         for S in st.running:
             S.status.stage = inst['stage']
             S.status.done = mk.bool(f'done{S.status.slot}')
@@ -707,7 +716,7 @@ class Pfasst(StageContract):
         c = st.c
         for stg, fn in zip(STAGES, ('spread', 'predict', 'it_check', 'it_fine', 'it_down', 'it_coarse', 'it_up')):
             setattr(c, fn, (lambda MSr, stg=stg: st.trace.append(('stage', stg, [S.status.slot for S in MSr]))))
-        st.call = lambda: c.pfasst(st.MS)
+        st.call = lambda: c.pfasst(st.active)
         return st
 
     def post(self, st, old, result, exc):
@@ -722,7 +731,7 @@ class Pfasst(StageContract):
         if exc is not None:
             return
         yield 'dispatches_once_to_the_stage_function_with_the_running_steps', tr == [('stage', inst['stage'], [S.status.slot for S in st.running])]
-        yield 'returns_all_done', Iff(result, And(*[S.status.done for S in st.MS]))
+        yield 'returns_all_done_of_the_block', Iff(result, And(*[S.status.done for S in st.active]))
         yield from frame_clauses(old, snapshot({f'S{q}': T for q, T in enumerate(st.MS)}), frame=[])
 
     def canary(self, st, old, result, exc):
